@@ -257,8 +257,8 @@ def gen_c10(rng: random.Random, stalls: bool = False) -> dict:
 class C10(CheckBase):
     pid = "C10"
     level = "exploration"
-    quick_cases = 1600
-    thorough_cases = 24000
+    quick_cases = 8000
+    thorough_cases = 80000
 
     def cases(self, rng: random.Random, tier: str, idx: int) -> Iterable[dict]:
         yield gen_c10(rng, stalls=(idx % 5 == 4))
